@@ -4,6 +4,7 @@ import (
 	"fmt"
 	"go/ast"
 	"go/constant"
+	"go/parser"
 	"go/token"
 	"go/types"
 	"hash/fnv"
@@ -11,6 +12,7 @@ import (
 	"regexp"
 	"sort"
 	"strings"
+	"sync"
 
 	"golang.org/x/tools/go/packages"
 )
@@ -30,17 +32,19 @@ func (f *FuncInfo) Name() string { return ShortFuncName(f.Obj) }
 
 // Prog is the loaded, type-checked module.
 type Prog struct {
-	Fset     *token.FileSet
-	Pkgs     []*packages.Package // module packages only, sorted by path
-	ByPath   map[string]*packages.Package
-	Funcs    map[*types.Func]*FuncInfo
-	AllPkgs  map[string]*types.Package // every package reachable through imports, by path
-	Overlay  map[string][]byte
-	RepoDir  string
-	domCache map[string][]constant.Value
-	constIdx map[string]*types.Const
-	SymDefs  map[string]string // symbol -> defining canonical expression
-	symOf    map[string]string
+	Fset        *token.FileSet
+	Pkgs        []*packages.Package // module packages only, sorted by path
+	ByPath      map[string]*packages.Package
+	Funcs       map[*types.Func]*FuncInfo
+	AllPkgs     map[string]*types.Package // every package reachable through imports, by path
+	Overlay     map[string][]byte
+	RepoDir     string
+	domCache    map[string][]constant.Value
+	constIdx    map[string]*types.Const
+	SymDefs     map[string]string // symbol -> defining canonical expression
+	symOf       map[string]string
+	fieldWrites []FieldWrite
+	callSites   []CallSite
 }
 
 // LoadOpts selects what to load.
@@ -293,6 +297,8 @@ func (p *Prog) FuncsOf(pkg *packages.Package) []*FuncInfo {
 
 // Sym returns the short symbol that names the value of the canonical expression def.
 func (p *Prog) Sym(def string) string {
+	symMu.Lock()
+	defer symMu.Unlock()
 	if s, ok := p.symOf[def]; ok {
 		return s
 	}
@@ -319,7 +325,10 @@ func (p *Prog) Render(s string, names map[string]string) string {
 			if n, ok := names[sym]; ok {
 				return n
 			}
-			if d, ok := p.SymDefs[sym]; ok {
+			symMu.Lock()
+			d, ok := p.SymDefs[sym]
+			symMu.Unlock()
+			if ok {
 				return "⟨" + d + "⟩"
 			}
 			return sym
@@ -327,3 +336,111 @@ func (p *Prog) Render(s string, names map[string]string) string {
 	}
 	return s
 }
+
+var symMu sync.Mutex
+
+// WithFile returns a program in which one file of a module package is replaced by content. Only
+// that package is re-parsed and re-type-checked (against the already loaded imports); this is
+// sound for changes that leave the package's exported API alone, which is all the witness
+// mutants do. The receiver is not modified.
+func (p *Prog) WithFile(file string, content []byte) (*Prog, error) {
+	var target *packages.Package
+	idx := -1
+	for _, pkg := range p.Pkgs {
+		for i, f := range pkg.CompiledGoFiles {
+			if f == file {
+				target, idx = pkg, i
+			}
+		}
+	}
+	if target == nil {
+		return nil, fmt.Errorf("file %s is not part of a loaded module package", file)
+	}
+	nf, err := parser.ParseFile(p.Fset, file, content, parser.ParseComments|parser.SkipObjectResolution)
+	if err != nil {
+		return nil, err
+	}
+	syntax := append([]*ast.File(nil), target.Syntax...)
+	// Syntax is parallel to CompiledGoFiles for packages loaded from source
+	if idx < len(syntax) && p.Fset.Position(syntax[idx].Pos()).Filename == file {
+		syntax[idx] = nf
+	} else {
+		found := false
+		for i, f := range syntax {
+			if p.Fset.Position(f.Pos()).Filename == file {
+				syntax[i] = nf
+				found = true
+			}
+		}
+		if !found {
+			return nil, fmt.Errorf("syntax of %s not found", file)
+		}
+	}
+	info := &types.Info{
+		Types:      map[ast.Expr]types.TypeAndValue{},
+		Defs:       map[*ast.Ident]types.Object{},
+		Uses:       map[*ast.Ident]types.Object{},
+		Implicits:  map[ast.Node]types.Object{},
+		Selections: map[*ast.SelectorExpr]*types.Selection{},
+		Scopes:     map[ast.Node]*types.Scope{},
+		Instances:  map[*ast.Ident]types.Instance{},
+	}
+	var firstErr error
+	conf := types.Config{
+		Importer: importerFunc(func(path string) (*types.Package, error) {
+			if tp, ok := p.AllPkgs[path]; ok {
+				return tp, nil
+			}
+			if path == "unsafe" {
+				return types.Unsafe, nil
+			}
+			return nil, fmt.Errorf("import %s not loaded", path)
+		}),
+		Sizes: target.TypesSizes,
+		Error: func(err error) {
+			if firstErr == nil {
+				firstErr = err
+			}
+		},
+	}
+	tp, _ := conf.Check(target.PkgPath, p.Fset, syntax, info)
+	if firstErr != nil {
+		return nil, firstErr
+	}
+	np := *target
+	np.Syntax = syntax
+	np.Types = tp
+	np.TypesInfo = info
+	q := &Prog{Fset: p.Fset, ByPath: map[string]*packages.Package{}, Funcs: map[*types.Func]*FuncInfo{}, AllPkgs: p.AllPkgs,
+		RepoDir: p.RepoDir, domCache: map[string][]constant.Value{}, SymDefs: p.SymDefs, symOf: p.symOf}
+	for _, pkg := range p.Pkgs {
+		if pkg == target {
+			q.Pkgs = append(q.Pkgs, &np)
+			q.ByPath[pkg.PkgPath] = &np
+		} else {
+			q.Pkgs = append(q.Pkgs, pkg)
+			q.ByPath[pkg.PkgPath] = pkg
+		}
+	}
+	for fobj, fi := range p.Funcs {
+		if fi.Pkg != target {
+			q.Funcs[fobj] = fi
+		}
+	}
+	for _, f := range np.Syntax {
+		for _, d := range f.Decls {
+			fd, ok := d.(*ast.FuncDecl)
+			if !ok || fd.Body == nil {
+				continue
+			}
+			if obj, _ := info.Defs[fd.Name].(*types.Func); obj != nil {
+				q.Funcs[obj] = &FuncInfo{Decl: fd, Pkg: &np, Obj: obj}
+			}
+		}
+	}
+	return q, nil
+}
+
+type importerFunc func(path string) (*types.Package, error)
+
+func (f importerFunc) Import(path string) (*types.Package, error) { return f(path) }
